@@ -62,7 +62,7 @@ func c13Rules(tier string) []Rule {
 			rs := core.InstrPresent(w, id, "PROV", nsrs, `^store &local<apis/v1\.NodeSelectorRequirementWithMinValues>\.Values = apim/util/sets\.List\[string\]\(`+req+`\.values\)$`, 1, "the NotIn carries the requirement's excluded values")
 			rs = append(rs, core.InstrPresent(w, id, "PROV", nsrs, `^store &local<apis/v1\.NodeSelectorRequirementWithMinValues>\.Key = `+req+`\.Key$`, 1, "…under the same key")...)
 			rs = append(rs, core.InstrPresent(w, id, "PROV", nsrs, `^store &local<apis/v1\.NodeSelectorRequirementWithMinValues>\.MinValues = `+req+`\.MinValues$`, 1, "…with the same MinValues")...)
-			rs = append(rs, core.InstrPresent(w, id, "PROV", nsrs, `^return phi\(append\(phi\(…\), &local<\[1\]apis/v1\.NodeSelectorRequirementWithMinValues>\[:\]\)\|makeslice<\[\]apis/v1\.NodeSelectorRequirementWithMinValues>\|phi\(append\(…, …\)\)\)$`, 1, "the accumulated slice is returned")...)
+			rs = append(rs, core.InstrPresent(w, id, "PROV", nsrs, `^return phi\(makeslice<\[\]apis/v1\.NodeSelectorRequirementWithMinValues>\|append\(phi\(…\), &local<\[1\]apis/v1\.NodeSelectorRequirementWithMinValues>\[:\]\)\|phi\(append\(…, …\)\)\)$`, 1, "the accumulated slice is returned")...)
 			return rs
 		}},
 		core.Custom{ID: "C13.REG1", Kind: "REG", Run: c13EmittedLiterals},
